@@ -436,3 +436,18 @@ Proof.
   intros Hr. unfold start, empty_disk, good, identity. cbn. rewrite eqb_bytes_refl.
   repeat split; auto; [exists true; reflexivity|repeat constructor; auto].
 Qed.
+
+(** without the premise of [identity_stable]: a controller that pairs under the accessory's own
+    device id replaces the accessory's entity; the key pair is gone at the next start and the
+    flag says "discoverable" although a pairing is stored *)
+Lemma identity_lost_when_own_name_is_paired :
+  let d1 := fst (start empty_disk [65] 7 [1]) in
+  let d2 := pair d1 [65] 9 in
+  let '(d3, c3) := start d2 [66] 8 [1] in
+  identity d1 [65] 7 /\ touches [65] (CPair [65] 9) = true /\
+  c_id c3 = [65] /\ c_key c3 = 9 /\ c_discoverable c3 = true /\ d_entities d3 = [([65], 9, false)].
+Proof.
+  cbv zeta. split.
+  - unfold identity. vm_compute. split; [reflexivity|split; [discriminate|exists true; reflexivity]].
+  - vm_compute. repeat split; reflexivity.
+Qed.
